@@ -192,7 +192,8 @@ def generate(rng, idx, tier):
         elif k == 'abort' and rng.random() < 0.3:
             # a print that fails inside the bundled printers: max_seq_len=None (documented as 'no truncation')
             # makes them raise, or a Box printer returns None so the enclosing printer sees a ValueError
-            ops.append(['failprint', rng.randrange(n), rng.choice(['max_seq_len_none', 'nondoc']), rng.randrange(1, 3)])
+            ops.append(['failprint', rng.randrange(n), rng.choice(['max_seq_len_none', 'nondoc', 'deep', 'deep']),
+                        rng.randrange(1, 3)])
         elif k == 'abort':
             if rng.random() < 0.3:
                 # a print during which a Box printer re-registers equivalent printers for list/dict/tuple
@@ -465,10 +466,17 @@ def execute(spec):
             try:
                 if op[2] == 'nondoc':
                     P.pformat(root)
+                elif op[2] == 'deep':
+                    # an unrelated value nested far deeper than anything else here, wide at the bottom
+                    deep = list(range(120))
+                    for _ in range(85 if op[3] == 1 else 140):
+                        deep = [deep]
+                    P.pformat(deep)
+                    bump('deep_prints')
                 else:
                     P.pformat(root, max_seq_len=None)
                 bump('failprint_returned')
-            except Exception:
+            except (Exception, RecursionError):
                 bump('failprint_raised')
             ABORT['nondoc'] = None
             trace.append(op)
